@@ -98,7 +98,7 @@ PROPS = {
                 {"pkg": "pkg/agent", "binary": "agent.test", "harness": "dec-rest", "variants": [""]},
                 {"pkg": "pkg/agent", "binary": "agent.test", "harness": "dec-wam", "variants": [""]},
                 {"pkg": "pkg/discovery", "binary": "disc.test", "harness": "dec-disc", "variants": [""]}],
-            "focus": "C04", "budget": {"quick": 45, "thorough": 600}, "level": "fault_enumeration", "rule": C04_RULE, "mem_limit_gb": 8,
+            "focus": "C04", "budget": {"quick": 45, "thorough": 600}, "level": "fault_enumeration", "rule": C04_RULE, "mem_limit_gb": 8, "hang_is_violation": True,
             "real": ["mtcp.MTCPServer.handleSender and the bpv7/cboring bundle decoder behind it", "tcpclv4 utils.MessageSwitchReaderWriter + msgs.ReadMessage and all message Unmarshal functions (incl. the contact header)",
                      "tcpclv4 utils.TransferManager.Send / OutgoingTransfer.NextSegment with peer-declared segment sizes", "discovery.UnmarshalAnnouncements",
                      "bpv7: NewAdministrativeRecordFromCbor / StatusReport, CanonicalBlock + ExtensionBlockManager.ReadBlock for payload, previous node, bundle age, hop count, binary spray, DTLSR, PRoPHET and signature blocks, ParseBundle, NewEndpointID",
@@ -108,7 +108,7 @@ PROPS = {
                      "NOT covered: TCPCL stage machines above the message switch, coverage-guided mutation of arbitrary byte strings (faults are structured: cuts, stalls, length/count fields, JSON node types)"],
             "assumptions": COMMON_ASSUME + ["allocation is measured with runtime.MemStats.TotalAlloc (process-wide): the bound is 4 MiB + 2 x bytes delivered and an excess must be measured twice; declared sizes up to 2^16 are below that resolution",
                                             "worker processes run under RLIMIT_AS = 8 GiB so that a successful giant allocation cannot take the machine down; a dying worker is reported as a process-crash violation",
-                                            "'never loops for ever' for whole-message decoders is a 45 s real-time watchdog per decode that must fire twice on the same input (never fires on the unchanged tree; it does not influence a run that returns)",
+                                            "'never loops for ever': for whole-message decoders a 45 s real-time watchdog per decode that must fire twice on the same input; for stream decoders (a spinning task never lets the bubble become quiescent) the worker is killed 150 s after its budget and its last case is re-run alone twice with a 120 s limit - only then is it a never-returns violation (never fires on the unchanged tree; it does not influence a run that returns)",
                                             "the xz dictionary-size field is only driven up to 64 MiB (of 4 GiB): the recorded finding makes larger values kill the worker"],
             "required_probes": ["stream_cut", "stream_stall", "field_corrupt", "hostile_segment_mru", "datagram_cut", "kind_eid", "kind_admin", "kind_block", "kind_bundle", "family_frag", "family_cbor", "family_xz", "rest/build", "wam_type_2"]},
     "C07": {"parts": [
